@@ -125,7 +125,8 @@ Definition step (m : mstate) (o : op) : mstate * mobs :=
   | OAddRule lang patterns name kind k cur =>
     match tokenise_patterns LX ck cfg lang patterns with
     | Panic st => (m, MPanic st)
-    | Ok ps =>
+    | Ok ps0 =>
+      let ps := filter (fun p => match p with [] => false | _ => true end) ps0 in   (* empty patterns are ignored *)
       match assoc lang (cf_rules cfg) with
       | None => (m, MRet (Some false))
       | Some _ =>
@@ -156,7 +157,8 @@ Definition step (m : mstate) (o : op) : mstate * mobs :=
       | None =>
         match tokenise_patterns LX ck cfg (s "en") parse with
         | Panic st => (m, MPanic st)
-        | Ok ps =>
+        | Ok ps0 =>
+          let ps := filter (fun p => match p with [] => false | _ => true end) ps0 in
           let d := {| dt_group := name; dt_index := index; dt_format := format; dt_parse := ps; dt_up := up;
                       dt_down := down; dt_names := names; dt_digits := digits; dt_round := rnd; dt_rm := rm |} in
           (with_cfg m (set_types cfg (assoc_insert name (ninsert index d g) (cf_types cfg))), MRet (Some true))
@@ -179,7 +181,7 @@ Inductive iline :=
 | ILErr (msg : str)
 | ILOk (out : str) (v : option (token F)).      (* the result ast as a token when it is an Item *)
 
-Record iobsline := { il_res : iline; il_ui : list (N * N * uikind); il_toks : option (list (token F)) }.
+Record iobsline := { il_res : iline; il_ui : option (list (N * N * uikind)); il_toks : option (list (token F)) }.
 
 Inductive iobs :=
 | IPanic
@@ -256,13 +258,13 @@ Definition line_eqb (m : option (line_obs (F:=F))) (i : iobsline) : bool :=
   | None, ILNone => true
   | Some o, ILErr msg =>
     match lo_result o with LErr m' => str_eqb m' msg | _ => false end
-    && list_eqb ui_eqb (lo_ui o) (il_ui i)
+    && match il_ui i with Some us => list_eqb ui_eqb (lo_ui o) us | None => true end
     && match il_toks i with Some ts => list_eqb token_exact (lo_tokens o) ts | None => true end
   | Some o, ILOk out v =>
     match lo_result o with
     | LOk out' a => str_eqb out' out && opt_token_exact (ast_as_token a) v
     | _ => false end
-    && list_eqb ui_eqb (lo_ui o) (il_ui i)
+    && match il_ui i with Some us => list_eqb ui_eqb (lo_ui o) us | None => true end
     && match il_toks i with Some ts => list_eqb token_exact (lo_tokens o) ts | None => true end
   | _, _ => false
   end.
